@@ -399,10 +399,28 @@ pub fn run(ctx: &mut Ctx) {
         let mut h = vec![];
         for _ in 0..300 {
             // bias toward growth so that deep positions are reached
-            if r.chance(1, 3) {
+            if r.chance(1, 2) {
                 h.push(if r.bool() { Op::Push } else { Op::PushVec(2) });
             } else {
-                h.push(r.pick(&big).clone());
+                let mut op = r.pick(&big).clone();
+                // half of the positional operations address deep / far positions
+                if r.bool() {
+                    let far = r.below(130);
+                    op = match op {
+                        Op::PopVec(_) => Op::PopVec(far),
+                        Op::CopyVec(_) => Op::CopyVec(far),
+                        Op::Get(_) => Op::Get(far),
+                        Op::GetMut(_) => Op::GetMut(far),
+                        Op::Copy(_) => Op::Copy(far),
+                        Op::Replace(_) => Op::Replace(far),
+                        Op::Remove(_) => Op::Remove(far),
+                        Op::Yank(_) => Op::Yank(far),
+                        Op::Shove(_) => Op::Shove(far),
+                        Op::EqualAt(_, b) => Op::EqualAt(far, b),
+                        o => o,
+                    };
+                }
+                h.push(op);
             }
         }
         ctx.rec.case_marker(case, "random history");
@@ -414,6 +432,46 @@ pub fn run(ctx: &mut Ctx) {
         if j == 0 {
             ctx.rec.sample("random-history", &format!("{:?}", &h[..40]));
         }
+    }
+    // huge stacks (thousands of elements): thresholds, caps and fast paths only show there
+    let nh = ctx.n(24, 200);
+    for j in 0..nh as u64 {
+        case += 1;
+        if !ctx.mine(case) {
+            continue;
+        }
+        let mut r = Rng::derive(ctx.seed, &[16, 88, j]);
+        let n0 = *r.pick(&[70usize, 130, 260, 1100, 2100, 4200]);
+        let mut h = vec![if r.bool() { Op::FromVec(n0) } else { Op::PushVec(n0) }];
+        for _ in 0..30 {
+            let far = match r.below(4) {
+                0 => n0 - 1,
+                1 => n0,
+                2 => r.below(n0),
+                _ => r.below(80),
+            };
+            h.push(match r.below(12) {
+                0 => Op::Yank(far),
+                1 => Op::Shove(far),
+                2 => Op::Remove(far),
+                3 => Op::Replace(far),
+                4 => Op::Get(far),
+                5 => Op::CopyVec(far),
+                6 => Op::PopVec(r.below(40)),
+                7 => Op::EqualAt(far, r.bool()),
+                8 => Op::Push,
+                9 => Op::GetMut(far),
+                10 => Op::Copy(far),
+                _ => Op::Reverse,
+            });
+        }
+        ctx.rec.case_marker(case, "huge history");
+        if j % 3 == 0 {
+            run_history::<Item>(ctx, 0, &h, "Item");
+        } else {
+            run_history::<i32>(ctx, 0, &h, "i32");
+        }
+        ctx.rec.count("huge_histories", 1);
     }
     ctx.rec.checkpoint();
 }
